@@ -61,6 +61,15 @@ Section ParSpec.
     (forall t i, In i (asg t) -> i < n) /\
     (forall i, i < n -> exists t, In i (asg t)).
 
+  (* wave 3: the team that RUNS the region may execute only part of the iteration space (a hand-made schedule
+     with the wrong stride, an orphaned worksharing construct bound to the caller's team): every iteration at
+     most once, but not necessarily all of them *)
+  Definition partial_asg (n : nat) (asg : nat -> list nat) : Prop :=
+    (forall t, NoDup (asg t)) /\
+    (forall t u i, In i (asg t) -> In i (asg u) -> t = u) /\
+    (forall t i, In i (asg t) -> i < n).
+  Definition covered (asg : nat -> list nat) (i : nat) : Prop := exists t, In i (asg t).
+
   Definition done (qs : queues) : Prop := forall t, qs t = [].
 
   Definition race (qs : queues) : Prop :=
@@ -74,4 +83,6 @@ Arguments within {K V C} R W p.
 Arguments reinit {K V C} P p.
 Arguments fp_disjoint {K} n R W.
 Arguments done {K V C} qs.
+Arguments partial_asg n asg : clear implicits.
+Arguments covered asg i : clear implicits.
 Arguments race {K V C} qs.
